@@ -152,8 +152,15 @@ def rule_automorph(ctx: Ctx) -> None:
     good = True
     for c in calls_in(fn):
         if call_attr(c) == "add" and isinstance(c.func, ast.Attribute) and norm(c.func.value) in set_vars:
+            from ..core import deref as _deref
             base = c.args[0]
             while True:
+                if isinstance(base, ast.Name) and base.id not in relabelled and base.id != adj and _deref(fn, base) is not base \
+                        and not any(isinstance(l_, ast.For) and any(x is base for x in ast.walk(l_)) and any(
+                            isinstance(a_, ast.Assign) and any(isinstance(t_, ast.Name) and t_.id == base.id for t_ in a_.targets) for a_ in ast.walk(l_)) is False
+                            for l_ in ast.walk(fn)):
+                    base = _deref(fn, base)
+                    continue
                 if isinstance(base, ast.Call) and isinstance(base.func, ast.Name) and base.func.id == "tuple" and len(base.args) == 1:
                     base = base.args[0]
                 elif isinstance(base, ast.Call) and isinstance(base.func, ast.Attribute) and base.func.attr in ("flatten", "astype", "ravel"):
@@ -188,7 +195,8 @@ def rule_automorph(ctx: Ctx) -> None:
                 ctx.fail("flow.provenance-closure", m, c, "automorph_check appends a matrix that does not come from its "
                                                            "de-duplication set", func="automorph_check")
     # the input's own flattened tuple is removed from the set before re-appending (no duplicate of the input)
-    if any(call_attr(c) == "remove" and norm(c.func.value) in set_vars and adj in norm(c.args[0]) for c in calls_in(fn)
+    from ..core import expand as _expand
+    if any(call_attr(c) == "remove" and norm(c.func.value) in set_vars and adj in norm(_expand(fn, c.args[0])) for c in calls_in(fn)
            if isinstance(c.func, ast.Attribute) and c.args):
         ctx.ok_abstract("flow.provenance-closure", "automorph_check removes the input's own tuple from the set")
     else:
